@@ -88,13 +88,14 @@ class CFG:
         # jump threading (exact): `L = const v; goto T` where T is an empty block `switchInt(L)` goes
         # straight to T's target for v (the shape of `matches!(..)`, `a && b`, `if let .. else`).
         self.threaded = {}     # (T, label) -> [B...]
+        self.threaded_via = {}
         for bi, blk in enumerate(body.blocks):
             t = blk['term']
             if t['k'] != 'goto':
                 continue
             if t.get('threaded_via'):
                 # inline.thread_jumps took this edge in place of the switch edge (T, label): outcome queries see it as that edge
-                self.threaded.setdefault((t['threaded_via'][0], t['threaded_via'][1]), []).append((bi, t['target']))
+                self.threaded_via.setdefault((t['threaded_via'][0], t['threaded_via'][1]), []).append((bi, t['target']))
                 continue
             T = t['target']
             tb = body.blocks[T]
